@@ -84,6 +84,7 @@ double PowellMultiDimensions::doStep()
           f1dim_, getParameters_(), xit, getStopCondition()->getTolerance(),
           0, getMessageHandler(), getVerbose() > 0 ? getVerbose() - 1 : 0);
     fret_ = function().f(getParameters());
+    nbEval_++;
     if (getVerbose() > 2)
       printPoint(getParameters(), fret_);
     if (fret_ > fp_)
@@ -113,6 +114,7 @@ double PowellMultiDimensions::doStep()
             getParameters_(), xit, getStopCondition()->getTolerance(),
             0, getMessageHandler(), getVerbose() > 0 ? getVerbose() - 1 : 0);
       fret_ = getFunction()->f(getParameters());
+      nbEval_++;
       if (fret_ > fp_)
         throw Exception("DEBUG: PowellMultiDimensions::doStep(). Line minimization failed!");
       for (size_t j = 0; j < n; ++j)
@@ -123,7 +125,10 @@ double PowellMultiDimensions::doStep()
     }
   }
   else
+  {
     getFunction()->setParameters(getParameters());
+    nbEval_++;
+  }
 
   return fret_;
 }
